@@ -18,7 +18,8 @@ META = {
         "supplies/borrows + flags, squeeth vaults, deribit cash/positions/visible book, GLP/GM holdings, action log",
         "multi-step helpers (add_liquidity_by_value, remove_liquidity(collect=True), remove_all_liquidity, even_rebalance) may "
         "stop at a boundary between their constituent transactions; everything else is one transaction",
-        "caches, has_update flags and loggers are not part of the state",
+        "caches, has_update flags and loggers are not part of the state; but when the positions are unchanged after a rejection "
+        "the balance each market REPORTS (get_market_balance) must be unchanged too",
     ],
 }
 NSHARDS = 16
@@ -94,6 +95,7 @@ def one_case(mon, rng, sc, c):
             mon.cls(f"gen-error/{type(e).__name__}")
             continue
         pre = Dr.project(fz.broker, fz.actions)
+        pre_bal = balances(fz)
         del boundaries[:]
         res = Dr.call_op(op.fn)
         trace.append(f"{op.market}.{op.label}[{op.cls}]{'+' if res.ok else '-'}")
@@ -106,6 +108,18 @@ def one_case(mon, rng, sc, c):
         mon.cls(f"reject/{op.market}/{op.label}/{site}")
         mon.nt(f"{op.market}/{op.label}/{op.cls}/{site}")
         ok = post == pre or (op.multi and any(post == b for b in boundaries))
+        if post == pre:
+            # same positions => every market must also REPORT the same balance (derived views, caches) as before the call
+            post_bal = balances(fz)
+            mon.ev()
+            if post_bal != pre_bal:
+                changed = sorted(k for k in post_bal if post_bal[k] != pre_bal.get(k))
+                mon.violation(
+                    op.market, op.label, "reported-balance-changed-after-reject", site,
+                    f"{op.market}.{op.label}[{op.cls}] raised {type(res.exc).__name__}: {str(res.exc)[:100]}; positions unchanged but "
+                    f"get_market_balance() of {changed} changed: {[(str(pre_bal.get(k))[:200], str(post_bal[k])[:200]) for k in changed[:2]]} "
+                    f"(scene {sc.info}, trace tail {trace[-4:]})", {"scene": sc.info, "trace": trace[-12:]},
+                )
         if not ok:
             d = Dr.diff_proj(pre, post)
             what = sorted({x.split(":")[0].split("/")[1] for x in d})
@@ -117,6 +131,17 @@ def one_case(mon, rng, sc, c):
             )
         mon.sample({"scene": sc.info, "op": f"{op.market}.{op.label}", "arg_class": op.cls, "rejected_at": site,
                     "error": f"{type(res.exc).__name__}: {str(res.exc)[:80]}"}, cls=f"{op.market}/{op.label}/{site}")
+
+
+def balances(fz):
+    """what every market reports through get_market_balance() (repr of the balance object; None if it can not report)."""
+    out = {}
+    for m in fz.markets:
+        try:
+            out[m.market_info.name] = repr(m.get_market_balance())
+        except Exception as e:
+            out[m.market_info.name] = f"<{type(e).__name__}>"
+    return out
 
 
 def floors(merged, tier):
